@@ -1,5 +1,6 @@
 import QF.Drv.Hist
 import QF.Spec.Render
+import QF.Spec.JsonRead
 /-
 Driver section "jsonsweep": ToJSON of the first n rows of a reverse-sorted frame given by formula, for every n.
 -/
@@ -33,7 +34,20 @@ def jsonSweepLine (toks : Array String) : List Msg :=
     | .ok (v, N, n, none) => [{ cls := "SPEC-MISMATCH", op := "tojson", kind := "panic", detail := s!"ToJSON failed or panicked on the first {n} of {N} rows (variant {v})" }]
     | .ok (v, N, n, some out) =>
       match jsonDenotes (sweepFrame v N n) out with
-      | none => [{ cls := "OK", op := "tojson", kind := "", detail := "" }]
+      | none =>
+        -- the two expectations for reading the text back (no ReadJSON is run in this section): `jsonReread` of the frame and
+        -- the reader's spec `readJsonCfgS` applied to the bytes written must agree (`C14EndToEnd.readjson_tojson_partial`)
+        let f := sweepFrame v N n
+        let second : List Msg :=
+          if n == 0 then [] else
+          let r2 : Res := match Json.parse out with
+            | some doc => readJsonCfgS pnumS doc f.names []
+            | none => .err
+          match r2 with
+          | .ok g => if frameSame false (jsonReread f) g then []
+              else [{ cls := "DRIVER-ERROR", op := "tojson", kind := "expectations", detail := s!"the two expectations for ReadJSON of the first {n} rows of the {N}-row frame (variant {v}) disagree: jsonReread gives {showFrame (jsonReread f)}, readJsonS of the written bytes gives {showFrame g}" }]
+          | .err => [{ cls := "DRIVER-ERROR", op := "tojson", kind := "expectations", detail := s!"the two expectations for ReadJSON of the first {n} rows of the {N}-row frame (variant {v}) disagree: readJsonS of the written bytes gives an error" }]
+        { cls := "OK", op := "tojson", kind := "", detail := "" } :: second
       | some w => [{ cls := "SPEC-MISMATCH", op := "tojson", kind := "value", detail := s!"ToJSON of the first {n} rows of the {N}-row frame (variant {v}, {out.length} bytes): {w}; output ends with {repr (bytesToString (out.drop (out.length - 40)))}" }]
   | _ => []
 
